@@ -36,7 +36,8 @@ CLAUSE → THEOREM TABLE (review R1).  Standing hypotheses = the property's quan
   single-member groups / empty denominators   all theorems quantify over arbitrary `rows`; tpr_zero_of_no_positive; the
       `if … = 0 then 0` branch of tprSpec/fprSpec/tnrSpec/fnrSpec; examples exF1 (weighted single-row group), exEO
   make_derived_metric = the equivalent MetricFrame call   derived_eq_metricframe, derived_eq, derived_finish_eq,
-      derived_make_eq / _ok_iff / _fails, derived_route, derived_bad_method, derived_nameless_ok
+      derived_make_eq / _ok_iff / _fails, derived_route, derived_bad_method, derived_nameless_ok,
+      derived_call_eq_finish (the whole __call__: routing of sample_weight / method, then the MetricFrame call)
 Consistency corollaries (C03X.lean): eodds_ge_eopp, dp_ratio_one_iff_difference_zero, dp_ranges, eopp_eodds_ranges.
 -/
 import FairModel.Lemmas.Fairness
@@ -921,6 +922,42 @@ theorem ratio_overall_nan_of_all_zero {m : Metric} {g : List Dat → Rat} {nsf :
   · obtain ⟨r, hr, hq⟩ := (group_values hv hf q).mp hvm
     rw [hq, hz r hr]
     decide +kernel
+
+/-! ### the whole `_DerivedMetric.__call__`: routing, then the MetricFrame call -/
+
+/-- For a metric that accepts `sample_weight` (in its signature or through `**kwargs`), created with
+    `sample_weight` among the sample parameter names and `method` not among them (the default), the call
+    `dm(y_true, y_pred, sensitive_features=cols, sample_weight=w[, method=s])` IS the MetricFrame
+    construction on the rows weighted by `w`, followed by the transform's aggregate with `method=s`
+    (`Derived.finish`, which `derived_finish_eq` identifies with `Fairness.derived`): the driver op
+    `derived.call` evaluates exactly this function. -/
+theorem derived_call_eq_finish (mi : Derived.MetricInfo) (d : Derived.Made) (w ys ps : List Rat)
+    (cols : List (List Level)) (ms : Option String)
+    (hsig : mi.acceptsAny = true ∨ "sample_weight" ∈ mi.sigParams)
+    (hspn : "sample_weight" ∈ d.spn) (hmeth : "method" ∉ d.spn) :
+    Derived.call mi d (("sample_weight", Derived.KwVal.col w) ::
+        (match ms with | none => [] | some s => [("method", Derived.KwVal.str s)])) ys ps cols =
+      (MetricPool.mkRows 0 ys ps w (ys.map (fun _ => 0)) cols).bind
+        (fun rows => if rows.isEmpty then none
+          else Derived.finish d (ms.map Derived.KwVal.str) cols.length rows) := by
+  have r1 : Derived.route d.spn "sample_weight" = "sample" := by rw [derived_route, if_pos hspn]
+  have r2 : Derived.route d.spn "method" = "transform" := by rw [derived_route, if_neg hmeth, if_pos rfl]
+  have hc : mi.acceptsAny = false → "sample_weight" ∉ mi.sigParams → False := by
+    intro h1 h2
+    rcases hsig with h | h
+    · rw [h] at h1; cases h1
+    · exact h2 h
+  cases ms with
+  | none =>
+    simp [Derived.call, Derived.callWith, DerivedSpec.readsName, Derived.lookupKw, r1]
+    intro h1 h2; exact absurd h2 (fun h2 => hc h1 h2)
+  | some s =>
+    simp [Derived.call, Derived.callWith, DerivedSpec.readsName, Derived.lookupKw, r1, r2]
+    intro h1 h2; exact absurd h2 (fun h2 => hc h1 h2)
+
+-- its hypotheses with the default sample_param_names and the signature of the harness's plain metric
+example : "sample_weight" ∈ DerivedSpec.defaultSampleParamNames ∧ "method" ∉ DerivedSpec.defaultSampleParamNames ∧
+    "sample_weight" ∈ ["sample_weight", "scale"] := by decide +kernel
 
 /-! ### Non-vacuity and regression examples -/
 
